@@ -1194,3 +1194,137 @@ func c13NoFrozenClock(c *Check, rule string, rels []string) {
 	}
 	c.Hold(rule, "package-variables-seen", token.NoPos, n > 0, "no package-level variables found")
 }
+
+// ---- C07.R16: the organizational-domain fallback is decided on DMARC records.
+// RFC 7489 §6.6.3: TXT records at _dmarc.<author domain> that do not begin with v=DMARC1 are discarded FIRST; if
+// nothing is left the organizational domain is asked. A wildcard `*.example.org TXT "v=spf1 -all"` answers for
+// `_dmarc.sub.example.org` too: deciding the fallback on the raw answer (len(txts) == 0) takes that SPF string for "a
+// record exists", finds no DMARC record in it and ends with "no policy" – the p=reject / sp= of example.org is never
+// consulted and a forged `From: x@sub.example.org` is accepted. Decided in dmarc.FetchRecord: the list whose emptiness
+// guards the second lookup has passed the version filter on every definition that reaches the test.
+func c07FallbackOnFilteredRecords(c *Check, rule string) {
+	c.Rule(rule, "dmarc.FetchRecord: the emptiness test that sends the lookup to the organizational domain is made on the records that begin with v=DMARC1, not on the raw TXT answer (a wildcard SPF/TXT record at the subdomain does not hide the organizational policy)", 1)
+	r := c.need(rule, "internal/dmarc", "", "FetchRecord")
+	if r == nil {
+		return
+	}
+	info := r.Info
+	isLookup := func(info *types.Info, call *ast.CallExpr) bool { return methodName(call) == "LookupTXT" }
+	lk := r.Calls(isLookup)
+	if len(lk) < 2 {
+		c.Fail(rule, "FetchRecord:lookups", r.FI.Decl.Pos(), "undecided: expected a lookup at the author domain and one at the organizational domain")
+		return
+	}
+	// the second lookup: the one reachable from the first
+	var second Pt
+	found := false
+	for _, a := range lk {
+		for _, b := range lk {
+			if a != b {
+				if f, _ := r.Reachable([]Pt{a}, false, func(q Pt) bool { return q == b }, nil); f {
+					second, found = b, true
+				}
+			}
+		}
+	}
+	if !found {
+		c.Fail(rule, "FetchRecord:order", r.FI.Decl.Pos(), "undecided: the two lookups are not ordered")
+		return
+	}
+	// is an expression a version-filtered list?
+	isVersionTest := func(inf *types.Info, n ast.Node) bool {
+		f := false
+		ast.Inspect(n, func(y ast.Node) bool {
+			if call, ok := y.(*ast.CallExpr); ok && isCall(inf, call, "strings.HasPrefix") && len(call.Args) == 2 {
+				if s, ok := constString(inf, call.Args[1]); ok && strings.HasPrefix(strings.ToUpper(s), "V=DMARC1") {
+					f = true
+				}
+			}
+			return !f
+		})
+		return f
+	}
+	filteredDef := func(d ast.Expr) bool {
+		call, ok := ast.Unparen(d).(*ast.CallExpr)
+		if !ok {
+			return false
+		}
+		if fn := callee(info, call); fn != nil && fn.Pkg() != nil && fn.Pkg().Path() == modPath+"/internal/dmarc" {
+			if dd := c.P.DeclOf(fn); dd != nil && dd.Decl.Body != nil && isVersionTest(dd.Info(), dd.Decl.Body) {
+				return true
+			}
+		}
+		// append(acc, x) inside a loop guarded by the version test
+		if id, ok := ast.Unparen(call.Fun).(*ast.Ident); ok && id.Name == "append" {
+			okApp := false
+			ast.Inspect(r.FI.Decl.Body, func(y ast.Node) bool {
+				if ifs, ok := y.(*ast.IfStmt); ok && isVersionTest(info, ifs.Cond) && posIn(ifs.Body, call.Pos()) {
+					okApp = true
+				}
+				return true
+			})
+			return okApp
+		}
+		return false
+	}
+	// conditions `len(V) == 0` / `len(V) != 0` on the way to the second lookup
+	n := 0
+	for _, b := range r.F.G.Blocks {
+		cond, isCase := r.F.Cond(b)
+		if cond == nil || isCase {
+			continue
+		}
+		var lenArg ast.Expr
+		ast.Inspect(cond, func(y ast.Node) bool {
+			if call, ok := y.(*ast.CallExpr); ok && len(call.Args) == 1 {
+				if id, ok := ast.Unparen(call.Fun).(*ast.Ident); ok && id.Name == "len" {
+					lenArg = call.Args[0]
+				}
+			}
+			return true
+		})
+		if lenArg == nil {
+			continue
+		}
+		condPt := Pt{b, len(b.Nodes) - 1}
+		// only tests between the first lookup and the second
+		if f, _ := r.Reachable([]Pt{condPt}, false, func(q Pt) bool { return q == second }, nil); !f {
+			continue
+		}
+		v := objOf(info, lenArg)
+		if v == nil {
+			continue
+		}
+		n++
+		defs, ok := r.ReachingDefs(v, condPt, nil)
+		good := len(defs) > 0
+		bad := ""
+		if !ok {
+			// tuple definitions (`txts, err := r.LookupTXT(…)`) have no usable right-hand side: the raw answer
+			good, bad = false, "the raw answer of LookupTXT"
+		}
+		for _, d := range defs {
+			if !filteredDef(d) {
+				// a slice of an empty prefix (`txts[:0]`) is the start of an in-place filter: the appends decide
+				if se, isS := ast.Unparen(d).(*ast.SliceExpr); isS && se.Low == nil && se.High != nil {
+					continue
+				}
+				if mk, isC := ast.Unparen(d).(*ast.CallExpr); isC {
+					if id, isId := ast.Unparen(mk.Fun).(*ast.Ident); isId && id.Name == "make" && len(mk.Args) >= 2 {
+						if tv, has := info.Types[mk.Args[1]]; has && tv.Value != nil && tv.Value.String() == "0" {
+							continue // an empty list the filter appends to
+						}
+					}
+				}
+				if isNilIdent(info, d) {
+					continue
+				}
+				good, bad = false, exprStr(d)
+			}
+		}
+		c.Hold(rule, "FetchRecord:fallback-test"+itoa(n), cond.Pos(), good, "line "+itoa(p0(c.P, cond.Pos()))+": the test "+exprStr(cond)+" that decides whether the organizational domain is asked looks at "+bad+" – TXT strings that are not DMARC records (a wildcard SPF record answers for _dmarc.sub.example.org as well) count as 'a record exists': no DMARC record is found among them, the result is 'no policy', and the reject / quarantine policy published at the organizational domain is never applied to the subdomain")
+	}
+	if n == 0 {
+		c.Fail(rule, "FetchRecord:fallback-test", r.FI.Decl.Pos(), "undecided: no emptiness test guards the lookup at the organizational domain")
+	}
+}
